@@ -108,16 +108,16 @@ Print Assumptions C15_clash_is_hard_error.
     proper ancestor is pruned or at max depth; links to directories are followed"), raises nothing,
     and does not run out of fuel. *)
 Theorem C15_generate_permutation :
-  forall (scandir : path -> dirc -> dirc),
+  forall (scandir : path -> dirc -> dirc) (O : oracles),
     (forall p l, Permutation (scandir p l) l) ->
     forall (prune_spec : elem -> option bool) (prune_code : elem -> res bool),
       (forall e b, prune_spec e = Some b -> prune_code e = Ok b) ->
       forall (mn mx : option nat) (root : tree) (abs : path) (L : list elem),
-        walk prune_spec mn mx root [] abs 0 = Some L ->
-        exists L', generate scandir (Rec mn mx) (Some prune_code) root abs = (L', None) /\ Permutation L' L.
+        walk O prune_spec mn mx root [] abs 0 = Some L ->
+        exists L', generate scandir O (Rec mn mx) (Some prune_code) root abs = (L', None) /\ Permutation L' L.
 Proof.
-  intros scandir HP ps pc HA mn mx root abs L H.
-  exact (gen_recursive_spec scandir HP ps pc HA mn mx root abs L H).
+  intros scandir O HP ps pc HA mn mx root abs L H.
+  exact (gen_recursive_spec scandir HP O ps pc HA mn mx root abs L H).
 Qed.
 Print Assumptions C15_generate_permutation.
 
@@ -178,8 +178,8 @@ Print Assumptions C15_selection_prune_commute.
 (** In the model of the code itself: the files of [sub_set M f] are the files of [M] that [f]
     accepts, evaluated lazily (an exception of [f] ends the iteration there). *)
 Theorem C15_files_of_selection :
-  forall (scandir : path -> dirc -> dirc) (M : fsmodel) (f : elem -> res bool),
-    files scandir (sub_set M f) = let (items, er) := files scandir M in filter_stream f items er.
+  forall (scandir : path -> dirc -> dirc) (O : oracles) (M : fsmodel) (f : elem -> res bool),
+    files scandir O (sub_set M f) = let (items, er) := files scandir O M in filter_stream f items er.
 Proof. exact files_sub_set. Qed.
 Print Assumptions C15_files_of_selection.
 
@@ -188,8 +188,8 @@ Print Assumptions C15_files_of_selection.
     also behind links): the files of every model - recursive or not, with any limits, selection
     and pruning - have pairwise different relative paths. *)
 Theorem C15_files_have_distinct_paths :
-  forall (M : smodel) (L : list elem),
-    wf_tree (sm_dir M) -> spec_files M = Some L -> distinct_rels L = true.
+  forall (O : oracles) (M : smodel) (L : list elem),
+    wf_tree (sm_dir M) -> spec_files O M = Some L -> distinct_rels L = true.
 Proof. exact spec_files_distinct. Qed.
 Print Assumptions C15_files_have_distinct_paths.
 
@@ -274,7 +274,8 @@ Example C15_example_oracles :
                    (fun k s => if Nat.eqb k 7 then Some (match s with [] => true | _ => false end) else None)   (* regex 7 = ^$ *)
                    (fun _ _ => None)
                    (fun k c => if Nat.eqb k 3 then Some (Some (name_eqb c n_c)) else None)                       (* text matcher 3 *)
-                   (fun k p => if Nat.eqb k 1 then Some (Some (path_eqb p [n_a; n_a])) else None) in             (* program 1 *)
+                   (fun k p => if Nat.eqb k 1 then Some (Some (path_eqb p [n_a; n_a])) else None)                (* program 1 *)
+                   (fun _ => None) in
   let e := root_elem t [n_a] in
   sem_fm O (FDirContents NonRec (SEvery (FNameRe PSuffix 7))) e = Some true
   /\ eval_fm id_order O (FDirContents NonRec (SSelection (FType TFile) (SEvery (FContents (TNot (TOpaque 3)))))) e = Ok false
